@@ -115,7 +115,7 @@ pub fn run_check(replay: Option<Value>) -> i32 {
 
     // (b) power-of-two scaling of state and atol on linear homogeneous systems, (c) scalar vs vector tolerance
     let lprobs = linear_problems();
-    let ks = [-20i32, -3, 1, 10, 40];
+    let ks = [-200i32, -60, -20, -3, 1, 10, 40, 200];
     let dims_b = vec![
         dim("method", &M6.iter().map(|m| mname(*m)).collect::<Vec<_>>()),
         dim("problem", &lprobs.iter().map(|p| p.name.clone()).collect::<Vec<_>>()),
@@ -340,7 +340,7 @@ pub fn run_check(replay: Option<Value>) -> i32 {
     for t in ["reflection-bitwise-equal", "events-mirrored", "scaling-checked", "tolerance-vector-checked", "copies-checked"] {
         rep.require(t, 20);
     }
-    rep.rule = "symmetry generators applied to every lattice point: (a) time reflection z'=-f(-s,z) on [-x0,-xend]: bitwise for explicit methods and implicit ones with the user Jacobian, 1e-6 with the finite-difference Jacobian, events mirrored within 4e-11; (b) state and atol scaled by 2^k, k in {-20,-3,1,10,40}, on linear homogeneous systems: bitwise; (c) scalar tolerance as constant vector: bitwise; (d) m in {2,3,4,8,16} identical copies, first_step given and automatic: copies bitwise equal inside the run, same naccpt/nrejct and trajectories within 1e-5 of the single system; distinct = distinct RHS fingerprints".into();
+    rep.rule = "symmetry generators applied to every lattice point: (a) time reflection z'=-f(-s,z) on [-x0,-xend]: bitwise for explicit methods and implicit ones with the user Jacobian, 1e-6 with the finite-difference Jacobian, events mirrored within 4e-11; (b) state and atol scaled by 2^k, k in {-200,-60,-20,-3,1,10,40,200}, on linear homogeneous systems: bitwise; (c) scalar tolerance as constant vector: bitwise; (d) m in {2,3,4,8,16} identical copies, first_step given and automatic: copies bitwise equal inside the run, same naccpt/nrejct and trajectories within 1e-5 of the single system; distinct = distinct RHS fingerprints".into();
     rep.assumptions.push("bitwise equality is only demanded where IEEE arithmetic makes the symmetry exact (negation, powers of two, identical operation sequences)".into());
     rep.finish()
 }
